@@ -70,6 +70,7 @@ fixed("C06","C06/sequence/include-line-produced-by-generate-uses-the-include-FS"
 fixed("C07","C07/error-line-out-of-range/mutation","de58904","a zone text ending right after a $GENERATE range ('$GENERATE 13-17<EOF>') was reported as 'garbage after $GENERATE range: \"\" at line: 0:0': the end-of-input token carries no position")
 fixed("C07","C07/syntax-error-not-reported/unbalanced-parenthesis/CSYNC","cdc71f1","an unbalanced parenthesis inside the RDATA of NSEC, NSEC3, NXT, CSYNC, LOC, HIP, APL, SVCB/HTTPS or NSEC3PARAM was swallowed: the record was returned, every later entry silently dropped and Err() stayed nil (those RDATA loops ignore the lexer's error flag)")
 fixed("C07","C07/syntax-error-not-reported/unbalanced-parenthesis/directive/$INCLUDE","7edbe58","a lexer error in the token after the blank that follows the file name of $INCLUDE (a closing parenthesis that closes nothing, a parenthesis still open at the end of the input) was dropped: the file was included, every later entry of the zone was skipped and Err() stayed nil (hinted at by a round-11 sub-agent as odd behaviour of the clean checkout, confirmed with the directive-parenthesis matrix)")
+fixed("C07","C07/record-returned-after-error/read-error","67c4db3","when reading the input failed (or a $GENERATE modifier was bad) in the middle of a record's RDATA, the token stream ended like the input does and Next handed out the record built from what had arrived - an SOA with expire and minimum 0, an A record without an address - with ok=true, the error showing only in Err(); likewise an $INCLUDE or $GENERATE line cut short by a read error was acted on and its records handed out (hinted at by a round-11 sub-agent, confirmed with the oracle that Err() is nil whenever Next returns a record)")
 fixed("C07","C07/syntax-error-not-reported/ttl-out-of-range","caf99ce","a TTL written with so many digits that the 64-bit accumulator wraps (18446744073709551617) was accepted as a small TTL (1) in records, $TTL and $GENERATE templates instead of being reported (noticed by a round-5 sub-agent while preparing a different change)")
 # ---- C11
 known("C10","C10/sign-fails/key-tag-0","RRSIG.Sign treats KeyTag 0 as 'not set' and returns ErrKey: an RRset cannot be signed with a key whose RFC 4034 key tag is 0 (one key in 65536; reproduced with a deterministic Ed25519 key)")
